@@ -41,6 +41,12 @@ func runC12(l *core.Ledger) {
 	c12X1(l, r)
 	c12X2(l, r)
 	l.With(map[string]string{"C07-E3": "C12-X3"}, func() { c07E3(l, r) })
+	// the answer a call gets at/after Close names the node it stands for (a reply loop that
+	// counts answered nodes by id never reaches exhaustion on anonymous answers)
+	checkResponseProvenance(l, r, "C12-X3")
+	// Close reaches every stream only if every stream's context hangs under the node context
+	// that Close cancels, and nobody but node creation replaces that cancel function
+	l.With(map[string]string{"C10-N2": "C12-X2"}, func() { c10N2(l, r) })
 	c12X4(l, r)
 	c12X5(l, r)
 	l.With(map[string]string{"C07-E4": "C12-X6"}, func() { c07E4(l, r) })
